@@ -16,6 +16,7 @@ from ..exceptions import (
     SolutionError,
 )
 from ..tools import model_to_dataframe as _model_to_dataframe
+from .. import _verif
 
 
 class BaseModel(SolverMixin, ModelInterface):
@@ -280,6 +281,9 @@ class BaseModel(SolverMixin, ModelInterface):
             for name in self.endogenous:
                 self.__dict__['_' + name][t] = self.__dict__['_' + name][t + offset]
 
+            if _verif.ON:
+                _verif.emit('offset', self, chk=_verif.vec(get_check_values()))
+
         status = SolutionStatus.UNSOLVED.value
         current_values = get_check_values()
 
@@ -313,6 +317,9 @@ class BaseModel(SolverMixin, ModelInterface):
                     f'in period with label: {self.span[t]} (index: {t})'
                 ) from e
 
+            if _verif.ON:
+                _verif.emit('before_done', self)
+
         for iteration in range(1, max_iter + 1):
             previous_values = current_values.copy()
 
@@ -333,6 +340,10 @@ class BaseModel(SolverMixin, ModelInterface):
                         **kwargs,
                     )
                 except Exception as e:
+                    if _verif.ON:
+                        _verif.emit('pass_raised', self, k=iteration, exc=type(e).__name__,
+                                    is_warning=isinstance(e, Warning), chk=_verif.vec(get_check_values()))
+
                     if errors == 'raise':
                         self.status[t] = SolutionStatus.ERROR.value
                         self.iterations[t] = iteration
@@ -343,6 +354,9 @@ class BaseModel(SolverMixin, ModelInterface):
                     ) from e
 
             current_values = get_check_values()
+
+            if _verif.ON:
+                _verif.emit('pass', self, k=iteration, chk=_verif.vec(current_values))
 
             # It's possible that the current iteration generated no NaNs or
             # infinities, but the previous one did: check and continue if
@@ -408,6 +422,9 @@ class BaseModel(SolverMixin, ModelInterface):
                             f'in period with label: {self.span[t]} (index: {t})'
                         ) from e
 
+                    if _verif.ON:
+                        _verif.emit('after_done', self)
+
                 status = SolutionStatus.SOLVED.value
                 break
         else:
@@ -415,6 +432,9 @@ class BaseModel(SolverMixin, ModelInterface):
 
         self.status[t] = status
         self.iterations[t] = iteration
+
+        if _verif.ON:
+            _verif.emit('stamp', self, st=status, it=iteration)
 
         if status == SolutionStatus.FAILED.value and failures == 'raise':
             raise NonConvergenceError(
@@ -482,3 +502,7 @@ class BaseModel(SolverMixin, ModelInterface):
         **kwargs :
             Further keyword arguments for solution
         """
+
+
+if _verif.ON:
+    BaseModel.solve_t = _verif.wrap_solve_t(BaseModel.solve_t, 'model')
